@@ -311,6 +311,9 @@ func runC03(c *core.Ctx) {
 			}
 			key := fmt.Sprintf("%s/result#%d", f.Name(), k)
 			shared := e.Ret[k].Params() | e.Ret[k]&(core.LocGlobal|core.LocUnknown)
+			if k < len(e.RetIdent) {
+				shared |= e.RetIdent[k].Params() // the very argument handed back (a fast path `return list`)
+			}
 			if why, isView := c03views[f.Name()]; isView {
 				c.Pass("R9", key, p.Pos(f.Pos()), "documented view / pass-through: "+why)
 				continue
